@@ -164,8 +164,11 @@ class C10(Prop):
                     hs = [h for h in hs if not any(isinstance(x, list) and x and x[0] == "u" for op in h for x in op)]
                     cs = [sg.mk_case("subject", "threads", h, "random", rng=rng) for h in hs[:cap]]
                 else:
-                    cs = [c for c in importlib.import_module(f"vlib.props.{name}").PROP.cases("quick", seed)
-                          if c.flavor == "threads" and c.suite in ("finalize", "groupby", "share")]
+                    owner = importlib.import_module(f"vlib.props.{name}").PROP
+                    # (cases their own check judges by its oracle alone — no model — have no lock program here either)
+                    cs = [c for c in owner.cases("quick", seed)
+                          if c.flavor == "threads" and c.suite in ("finalize", "groupby", "share")
+                          and not owner.compare_from(c)]
             except Exception as ex:            # pragma: no cover
                 print(f"note: C10 skips the {name} lock traces: {ex}")
                 continue
